@@ -48,6 +48,22 @@ ForgetPrune ==
   /\ \E w \in 0..2 : Emit("forget-prune:" \o N(w))
   /\ snaps' = snaps - 1 /\ waste' = FALSE /\ UNCHANGED <<ver, nkeys, copied>>
 
+\* "?k": the k-th mutating backend operation of the command fails (the command goes on or gives up as it likes)
+ForgetPruneFault ==
+  /\ In({"all"}) /\ snaps > 2
+  /\ \E k \in CrashPoints : Emit("forget-prune:2?" \o N(k))
+  /\ snaps' \in {snaps, snaps - 1, snaps - 2} /\ waste' = TRUE /\ UNCHANGED <<ver, nkeys, copied>>
+
+PruneFault ==
+  /\ In({"all"}) /\ snaps > 0 /\ waste
+  /\ \E k \in CrashPoints : Emit("prune:0?" \o N(k))
+  /\ UNCHANGED <<snaps, ver, nkeys, waste, copied>>
+
+BackupFault ==
+  /\ In({"all"}) /\ snaps < MaxSnaps
+  /\ \E k \in CrashPoints : Emit("backup:1?" \o N(k))
+  /\ snaps' \in {snaps, snaps + 1} /\ waste' = TRUE /\ UNCHANGED <<ver, nkeys, copied>>
+
 Prune ==
   /\ In({"all", "copy"}) /\ snaps > 0
   /\ \E o \in 0..3 : Emit("prune:" \o N(o))
@@ -118,9 +134,21 @@ CopyDst ==
        \/ n = 5 /\ Emit("copy")
   /\ UNCHANGED <<snaps, ver, nkeys, waste, copied>>
 
+\* scripted family "forgetfault": three backups, then forget --prune of two snapshots while the k-th mutating
+\* operation of that command fails (one snapshot file cannot be removed, an index cannot be written, ...), then a
+\* clean prune: what is still listed must stay complete
+ForgetFault ==
+  /\ Family = "forgetfault"
+  /\ LET n == Len(hist) IN
+       \/ n \in 0..2 /\ Emit("backup:" \o N(n))
+       \/ n = 3 /\ \E k \in 1..6 : Emit("forget-prune:2?" \o N(k))
+       \/ n = 4 /\ Emit("prune:0")
+       \/ n = 5 /\ Emit("backup:1")
+  /\ UNCHANGED <<snaps, ver, nkeys, waste, copied>>
+
 Joined(h) == FoldLeft(LAMBDA a, b : IF a = "" THEN b ELSE a \o " " \o b, "", h)
 \* "invariant" of the scripted family: prints every complete history once (BFS run)
-PrintComplete == (Family = "copydst" /\ Len(hist) = 6) => PrintT("HIST " \o Joined(hist))
+PrintComplete == (Family \in {"copydst", "forgetfault"} /\ Len(hist) = 6) => PrintT("HIST " \o Joined(hist))
 
 DstRepairIndex ==
   /\ In({"copy"}) /\ copied
@@ -179,10 +207,11 @@ Upgrade ==
 
 Next ==
   /\ Len(hist) < MaxLen
-  /\ \/ CopyDst
+  /\ \/ CopyDst \/ ForgetFault
      \/ Backup \/ BackupCrash \/ Forget \/ ForgetPrune \/ Prune \/ PruneCrash \/ Tag \/ TagCrash
      \/ Rewrite \/ RewriteCrash \/ Copy \/ CopyCrash \/ RepairIndex \/ RepairSnapshots
      \/ KeyAdd \/ KeyAddCrash \/ KeyPasswd \/ KeyPasswdCrash \/ KeyRemove \/ KeyRemoveCurrent \/ Upgrade
+     \/ ForgetPruneFault \/ PruneFault \/ BackupFault
      \/ Recover \/ RecoverCrash \/ DstForget \/ DstPrune \/ DstRepairIndex
 
 Spec == Init /\ [][Next]_vars
